@@ -87,7 +87,12 @@ impl Model {
 	}
 
 	pub fn ann(&mut self, msg: &ChannelAnnouncement, utxo: &dyn Fn(u64) -> UtxoAns) -> Verdict {
-		let c = &msg.contents;
+		self.ann_inner(&msg.contents, Some(msg), utxo)
+	}
+
+	/// `full`: the signed message (signatures verified, message kept for relay); None for the trusted
+	/// unsigned entry point, where every other rule applies unchanged and nothing is kept for relay.
+	pub fn ann_inner(&mut self, c: &lightning::ln::msgs::UnsignedChannelAnnouncement, full: Option<&ChannelAnnouncement>, utxo: &dyn Fn(u64) -> UtxoAns) -> Verdict {
 		let (n1, n2) = (*c.node_id_1.as_array(), *c.node_id_2.as_array());
 		// BOLT 7: node_id_1 is the lexicographically lesser of the two
 		if n1 >= n2 {
@@ -104,13 +109,15 @@ impl Model {
 				return Err("ann-duplicate");
 			}
 		}
-		let signed = c.encode();
-		let ok = self.sig_ok(&signed, &msg.node_signature_1, &n1)
-			& self.sig_ok(&signed, &msg.node_signature_2, &n2)
-			& self.sig_ok(&signed, &msg.bitcoin_signature_1, c.bitcoin_key_1.as_array())
-			& self.sig_ok(&signed, &msg.bitcoin_signature_2, c.bitcoin_key_2.as_array());
-		if !ok {
-			return Err("ann-bad-sig");
+		if let Some(msg) = full {
+			let signed = c.encode();
+			let ok = self.sig_ok(&signed, &msg.node_signature_1, &n1)
+				& self.sig_ok(&signed, &msg.node_signature_2, &n2)
+				& self.sig_ok(&signed, &msg.bitcoin_signature_1, c.bitcoin_key_1.as_array())
+				& self.sig_ok(&signed, &msg.bitcoin_signature_2, c.bitcoin_key_2.as_array());
+			if !ok {
+				return Err("ann-bad-sig");
+			}
 		}
 		if self.rm_chans.contains_key(&c.short_channel_id) || self.rm_nodes.contains_key(&n1) || self.rm_nodes.contains_key(&n2) {
 			return Err("ann-removed-recently");
@@ -135,7 +142,10 @@ impl Model {
 		if self.ever_removed.contains(&c.short_channel_id) {
 			self.comebacks += 1;
 		}
-		let stored = if c.excess_data.len() <= MAX_EXCESS_BYTES_FOR_RELAY { Some(msg.encode()) } else { None };
+		let stored = match full {
+			Some(msg) if c.excess_data.len() <= MAX_EXCESS_BYTES_FOR_RELAY => Some(msg.encode()),
+			_ => None,
+		};
 		self.chans.insert(
 			c.short_channel_id,
 			MChan { v: VChan { n1, n2, cap, features: trim_features(c.features.le_flags()), dirs: [None, None], ann: stored }, recv: Tm::Now },
@@ -204,7 +214,11 @@ impl Model {
 	}
 
 	pub fn node(&mut self, msg: &NodeAnnouncement) -> Verdict {
-		let c = &msg.contents;
+		self.node_inner(&msg.contents, Some(msg))
+	}
+
+	/// `full` as for `ann_inner`.
+	pub fn node_inner(&mut self, c: &lightning::ln::msgs::UnsignedNodeAnnouncement, full: Option<&NodeAnnouncement>) -> Verdict {
 		let id = *c.node_id.as_array();
 		// a node is only known through its channels
 		let Some(n) = self.nodes.get(&id) else { return Err("node-unknown") };
@@ -217,8 +231,10 @@ impl Model {
 				return Err("node-older");
 			}
 		}
-		if !self.sig_ok(&c.encode(), &msg.signature, &id) {
-			return Err("node-bad-sig");
+		if let Some(msg) = full {
+			if !self.sig_ok(&c.encode(), &msg.signature, &id) {
+				return Err("node-bad-sig");
+			}
 		}
 		let relay = c.excess_data.len() + c.excess_address_data.len() <= MAX_EXCESS_BYTES_FOR_RELAY;
 		self.nodes.get_mut(&id).unwrap().info = Some(VNodeInfo {
@@ -227,7 +243,10 @@ impl Model {
 			rgb: c.rgb,
 			features: trim_features(c.features.le_flags()),
 			addresses: encode_addrs(&c.addresses),
-			msg: if relay { Some(msg.encode()) } else { None },
+			msg: match full {
+				Some(msg) if relay => Some(msg.encode()),
+				_ => None,
+			},
 		});
 		Ok(())
 	}
